@@ -94,6 +94,12 @@ CHECKS = {
    technique="deterministic simulation: generated query packets (header bits, EDNS shapes, mangled headers) through the real UDP engine (batch and portable readers, inline and replay) and through Server.ServeMsg over UDP-like and TCP-like transports; every reply judged against its own query by the property's rules",
    text="Seeded search over configurations and packet sequences (the C05 generator) plus per-packet mangling (QR set, non-query opcode, QDCOUNT 0/2, ANCOUNT 2, truncated body/header). Rules checked per reply: QR/ID/opcode echo, question echo (exact bytes), no OPT without OPT, no RRSIG/NSEC/NSEC3 without DO (unless RRSIG asked), AD only when negotiated, no reflected client subnet / keepalive over UDP / foreign options, cookie only against a cookie, UDP size limit or minimal TC reply, never answer a response, NOTIMP/FORMERR/BADVERS rejections. Sampling, not proof.",
    note="Stream listeners (TCP/TLS) and DoH/DoQ are not simulated: header-level rejection is checked on the datagram listener only and 'ID 0 over DoQ' is not checked. Types NSEC/NSEC3 are not asked explicitly. One COOKIE option per query."),
+
+ "C04": dict(
+   level="exploration", design="§3 C04",
+   technique="deterministic simulation: authoritative servers stamp the serving second into the data (host addresses, SOA serials) and sign on the spot with a fixed signature lifetime; whole chain and resolver over a simulated network on a fake clock spanning seconds to days",
+   text="Seeded search over record/alias/NS/SOA TTLs around the 5 s floor and the 24 h cap, SOA minimum, signature lifetime, prefetch, RFC 8198, upstream latency, and 10-60 queries at gaps from 0.2 s to 30 h over a signed and an unsigned zone (hosts, in-zone and cross-zone aliases, NXDOMAIN and names below, NODATA). Every reply says how old its data is: a reply older than the smallest applicable lifetime, a TTL above the time remaining, a TTL that grows between hits of one entry, or older data after newer for one key is a violation. Sampling, not proof.",
+   note="Ages are judged with 2 s of slack plus the configured upstream latency. The delegation lease is only bounded from above (max(5 s, smallest NS TTL on the chain)); its exact value is C08's. Monotonicity rules are applied to direct questions only. DNS64 composition is C20's. One open finding (first reply relays the authority's TTL unclamped) is listed in known_findings.json."),
 }
 
 NOT_APPLICABLE = {
